@@ -114,9 +114,12 @@ func (valdec mapDecoder) decodeListAsMap(dec *Decoder, p interface{}, tag byte) 
 	dec.AddReference(p)
 	kp := valdec.kt.UnsafeNew()
 	vp := valdec.vt.UnsafeNew()
+	zp := valdec.vt.UnsafeNew()
 	vt := valdec.vt.Type1()
 	for i := 0; i < count; i++ {
 		valdec.convertKey(i, kp)
+		// forget the previous entry: a slice, map or pointer value must not reuse its memory
+		valdec.vt.UnsafeSet(vp, zp)
 		valdec.decodeValue(dec, vt, vp)
 		valdec.t.UnsafeSetIndex(mp, kp, vp)
 	}
@@ -130,9 +133,14 @@ func (valdec mapDecoder) decodeMap(dec *Decoder, p interface{}) {
 	dec.AddReference(p)
 	kp := valdec.kt.UnsafeNew()
 	vp := valdec.vt.UnsafeNew()
+	zkp := valdec.kt.UnsafeNew()
+	zvp := valdec.vt.UnsafeNew()
 	kt := valdec.kt.Type1()
 	vt := valdec.vt.Type1()
 	for i := 0; i < count; i++ {
+		// forget the previous entry: a slice, map or pointer must not reuse its memory
+		valdec.kt.UnsafeSet(kp, zkp)
+		valdec.vt.UnsafeSet(vp, zvp)
 		valdec.decodeKey(dec, kt, kp)
 		valdec.decodeValue(dec, vt, vp)
 		valdec.t.UnsafeSetIndex(mp, kp, vp)
